@@ -251,9 +251,16 @@ def c04_extra():
 
     def not_nums():
         return Not(Array(Number(), maxItems=1))
+    def empty_tuple_models():
+        class Tag(Object):
+            weight = Property(Number())
+            class_ = Property(String(default="k"), source="class")
+        return Array([], additionalItems=Tag)
     out = []
     for j, mk in enumerate([derived_after_base, point_or_any, nums_or_any, not_nums,
-                            lambda: OneOf(Array(Number(), minItems=3), Array(Element(), maxItems=2))]):
+                            lambda: OneOf(Array(Number(), minItems=3), Array(Element(), maxItems=2)),
+                            lambda: Array([], additionalItems=Number()), lambda: Element(items=[], additionalItems=Number()), empty_tuple_models,
+                            lambda: Element(items=[], additionalItems=Array(Number()))]):
         out.append((1000 + j, mk, mk()))
     return out
 
